@@ -366,6 +366,9 @@ func (y *vsSys) nextBlock(s, c *vsState) (*vsState, string, *engine.Violation) {
 	mm := mirrorMap(s.mirror)
 	seen := map[string]bool{}
 	for _, u := range updates {
+		if u.PubKey.GetEd25519() == nil {
+			return c, "bad-batch", T(viol("batch-accepted-by-consensus-engine", "update with a key of a type the chain's consensus parameters do not list (%T); CometBFT refuses the batch", u.PubKey.Sum))
+		}
 		k := hex.EncodeToString(u.PubKey.GetEd25519())
 		if seen[k] {
 			return c, "bad-batch", T(viol("batch-accepted-by-consensus-engine", "key %s twice in one batch (%d updates)", keyName(k), len(updates)))
@@ -553,7 +556,39 @@ func (y *vsSys) indexes(s *vsState) *engine.Violation {
 		if err != nil || !qr.Validator.Equal(&val) {
 			return viol("indexes-one-to-one", "Validator query for %s disagrees with the store (err=%v)", opName(val.OperatorAddress), err)
 		}
+		// the staking-style accessors other modules use (ibc, upgrade) answer the same
+		vi := s.w.K.ValidatorByConsAddr(ctx, ca)
+		if vi == nil || vi.GetOperator() != val.OperatorAddress {
+			return viol("indexes-one-to-one", "ValidatorByConsAddr(key of %s) answers %v", opName(val.OperatorAddress), vi)
+		}
+		opBz, _ := sdk.ValAddressFromBech32(val.OperatorAddress)
+		if vo := s.w.K.Validator(ctx, opBz); vo == nil || vo.GetOperator() != val.OperatorAddress || vo.GetConsensusPower() != val.ConsPower {
+			return viol("indexes-one-to-one", "Validator(%s) answers %v", opName(val.OperatorAddress), vo)
+		}
 		n++
+	}
+	var walked []string
+	_ = s.w.K.IterateValidators(ctx, func(v opchildtypes.ValidatorI) (bool, error) {
+		walked = append(walked, v.GetOperator())
+		return false, nil
+	})
+	var lastWalk, lastStore []string
+	if err := s.w.K.IterateLastValidators(ctx, func(v opchildtypes.ValidatorI, power int64) (bool, error) {
+		lastWalk = append(lastWalk, fmt.Sprintf("%s:%d", v.GetOperator(), power))
+		return false, nil
+	}); err != nil {
+		return viol("indexes-one-to-one", "IterateLastValidators: %v", err)
+	}
+	_ = s.w.K.IterateLastValidatorPowers(ctx, func(op []byte, power int64) (bool, error) {
+		lastStore = append(lastStore, fmt.Sprintf("%s:%d", sdk.ValAddress(op).String(), power))
+		p, err := s.w.K.GetLastValidatorPower(ctx, op)
+		if err != nil || p != power {
+			lastStore = append(lastStore, fmt.Sprintf("GetLastValidatorPower(%s)=%d,%v", sdk.ValAddress(op).String(), p, err))
+		}
+		return false, nil
+	})
+	if strings.Join(lastWalk, ",") != strings.Join(lastStore, ",") {
+		return viol("indexes-one-to-one", "IterateLastValidators lists %v, the last-validator-power table holds %v", lastWalk, lastStore)
 	}
 	// Query/Validators, whole and paged one by one, lists exactly the stored validators
 	var stored []string
@@ -579,6 +614,9 @@ func (y *vsSys) indexes(s *vsState) *engine.Violation {
 				break
 			}
 			key = qv.Pagination.NextKey
+		}
+		if lim == 0 && strings.Join(walked, ",") != strings.Join(stored, ",") {
+			return viol("indexes-one-to-one", "IterateValidators walks %v, the store holds %v", walked, stored)
 		}
 		if strings.Join(got, ",") != strings.Join(stored, ",") {
 			return viol("indexes-one-to-one", "Query/Validators (page size %d) lists %d validators %v, the store holds %d", lim, len(got), got, len(stored))
@@ -616,8 +654,48 @@ func (y *vsSys) Check(s *vsState) *engine.Violation {
 	if v := y.checkExecs(s); v != nil {
 		return v
 	}
+	if v := y.keyTypeProbe(s); v != nil {
+		return v
+	}
 	if y.withPlan {
 		return y.registrationProbes(s)
+	}
+	return nil
+}
+
+// keyTypeProbe: on a branch, governance adds a validator whose consensus key is of a type the chain's
+// consensus parameters do not list (secp256k1 on an ed25519 chain) and the block ends: no update the
+// engine would refuse may come out.
+func (y *vsSys) keyTypeProbe(s *vsState) *engine.Violation {
+	for _, o := range vsOps {
+		opAddr, _ := sdk.ValAddressFromBech32(valOf(o))
+		if _, found := s.w.K.GetValidator(s.ctx, opAddr); found {
+			continue
+		}
+		ctx, _ := s.ctx.CacheContext()
+		m, err := opchildtypes.NewMsgAddValidator("secp", s.w.Authority, valOf(o), world.SecpKey("cons-"+o).PubKey())
+		if err != nil {
+			panic(err)
+		}
+		res := s.w.Deliver(ctx, m)
+		if !res.OK() {
+			return nil // refused, as the parameters demand
+		}
+		var ups []abci.ValidatorUpdate
+		var pan any
+		func() {
+			defer func() { pan = recover() }()
+			ups, err = opchild.EndBlocker(ctx, s.w.K)
+		}()
+		if pan != nil || err != nil {
+			return viol("block-processing-never-aborts", "AddValidator(%s, secp256k1 key) was accepted and the end blocker then failed: %v %v", o, pan, err)
+		}
+		for _, u := range ups {
+			if u.PubKey.GetEd25519() == nil {
+				return viol("batch-accepted-by-consensus-engine", "AddValidator(%s, secp256k1 key) was accepted on a chain whose consensus parameters list ed25519 only; the end-block batch carries a %T key, which CometBFT refuses", o, u.PubKey.Sum)
+			}
+		}
+		return nil
 	}
 	return nil
 }
